@@ -12,8 +12,6 @@ open Gen.N
 
 theorem setPanic_broker (r : Realm) (p : Option String) : (r.setPanic p).broker = r.broker := by
   unfold setPanic; split <;> rfl
-theorem setPanic_queues (r : Realm) (p : Option String) : (r.setPanic p).queues = r.queues := by
-  unfold setPanic; split <;> rfl
 
 theorem trySend_broker (r : Realm) (s : Send) : (r.trySend s).broker = r.broker := by
   unfold trySend
@@ -36,7 +34,7 @@ theorem applyD_broker (r : Realm) (o : DOut) : (r.applyD o).broker = r.broker :=
 /-! ### queues only grow -/
 
 /-- every queue of `r'` is the queue of `r` with messages appended -/
-def QGrow (r r' : Realm) : Prop := ∀ k, ∃ extra, queueOf r'.queues k = queueOf r.queues k ++ extra
+def QGrow (r r' : Realm) : Prop := ∀ k, ∃ extra, queueOfList r'.queues k = queueOfList r.queues k ++ extra
 
 theorem QGrow.refl (r : Realm) : QGrow r r := fun _ => ⟨[], by simp⟩
 
@@ -65,7 +63,7 @@ theorem qgrow_trySend (r : Realm) (s : Send) : QGrow r (r.trySend s) := by
   rcases trySend_queues r s with h | h
   · exact QGrow.of_eq h
   · intro k
-    rw [h, queueOf_enqueue]
+    rw [h, queueOfList_enqueue]
     by_cases e : k = s.to
     · subst e; exact ⟨[s.msg], by simp⟩
     · exact ⟨[], by simp [e]⟩
